@@ -1,8 +1,8 @@
-//! qvh — correspondence harness. `qvh <Cxx> --seed N --tier quick|thorough [--only IDX]`
-//! prints one `(case <idx> <input> <implementation-output>)` line per case on stdout.
-mod props;
-mod rng;
-mod wire;
+//! qvh — correspondence harness library. Each property has its own binary `src/bin/cXX.rs`:
+//! `cXX --seed N --tier quick|thorough [--only IDX]` prints one
+//! `(case <idx> <input> <implementation-output>)` line per case on stdout.
+pub mod rng;
+pub mod wire;
 
 use std::io::Write;
 use std::panic::{catch_unwind, AssertUnwindSafe};
@@ -58,17 +58,13 @@ impl Ctx {
     }
 }
 
-fn main() {
+/// Entry point shared by the per-property binaries.
+pub fn main_with(run: impl FnOnce(&mut Ctx)) {
     let args: Vec<String> = std::env::args().collect();
-    if args.len() < 2 {
-        eprintln!("usage: qvh <property> [--seed N] [--tier quick|thorough] [--only IDX]");
-        std::process::exit(2);
-    }
-    let prop = args[1].clone();
     let mut seed = 0u64;
     let mut tier = Tier::Quick;
     let mut only = None;
-    let mut i = 2;
+    let mut i = 1;
     while i < args.len() {
         match args[i].as_str() {
             "--seed" => {
@@ -98,9 +94,6 @@ fn main() {
         next_index: 0,
         out: std::io::BufWriter::with_capacity(1 << 20, std::io::stdout()),
     };
-    if !props::run(&prop, &mut ctx) {
-        eprintln!("unknown property {prop}");
-        std::process::exit(2);
-    }
+    run(&mut ctx);
     ctx.out.flush().expect("flush");
 }
